@@ -769,7 +769,13 @@ impl Evidence {
         });
         let edir = evidence_dir();
         let _ = std::fs::create_dir_all(&edir);
-        let epath = edir.join(format!("{}.json", self.property));
+        // an engine that contributes a part of a property's evidence (a second build unit run by
+        // the `check` driver after the main engine) writes `<id>.<part>.json`; the driver merges
+        // it into `<id>.json`
+        let epath = match std::env::var("VERIF_EVIDENCE_PART") {
+            Ok(part) if !part.is_empty() => edir.join(format!("{}.{}.json", self.property, part)),
+            _ => edir.join(format!("{}.json", self.property)),
+        };
         if let Err(e) = std::fs::write(&epath, serde_json::to_string_pretty(&ev).unwrap()) {
             eprintln!("cannot write evidence {}: {e}", epath.display());
             return 2;
@@ -949,7 +955,12 @@ pub mod hang {
 /// minimal cases), kept under /verif/regress/<property>/*.json and executed first in
 /// every run through the engine's replay interpreter (bypassing the generators).
 pub fn run_regress(property: &str, exec: impl Fn(&str, Value) -> Outcome) -> Stats {
-    let dir = verif_dir().join("regress").join(property);
+    run_regress_in(property, property, exec)
+}
+
+/// like `run_regress`, seeds taken from /verif/regress/<dir_name>/
+pub fn run_regress_in(property: &str, dir_name: &str, exec: impl Fn(&str, Value) -> Outcome) -> Stats {
+    let dir = verif_dir().join("regress").join(dir_name);
     let mut files: Vec<PathBuf> = std::fs::read_dir(&dir)
         .map(|d| d.filter_map(|e| e.ok().map(|e| e.path())).filter(|p| p.extension().is_some_and(|x| x == "json")).collect())
         .unwrap_or_default();
